@@ -51,7 +51,7 @@ func init() {
 	register("C13", "", ruleLocks(plannerPkg+".CachedPlanner", modPath+"/executor.CachedPointDataExtractor"))
 	register("C18", "", ruleLocks(modPath+".subscriptionEntry"), ruleChannels, ruleConnWriters, ruleTeardown, ruleGoSites, ruleSubscriptionRegistry)
 	register("C17", "", ruleNoClientWriteDeadline)
-	register("C18", "", ruleNoClientWriteDeadline, ruleCloseReason)
+	register("C18", "", ruleNoClientWriteDeadline, ruleCloseReason, ruleEntryAdopted)
 	register("C17", "", ruleEventPath, ruleChannels, ruleGoSites, ruleUpstreamForward)
 	register("C06", "", ruleOperationType, rulePlanImmutable, ruleCacheKey, ruleCallers(nil))
 	register("C02", "", ruleOperationType, ruleCacheKey)
@@ -62,10 +62,13 @@ func init() {
 	register("C11", "", ruleMultiplicity, ruleReducers, ruleGoSites)
 	register("C13", "", ruleDedup, ruleCacheKey)
 	register("C08", "", ruleLocks(plannerPkg+".CachedPlanner"))
-	register("C19", "", ruleMultiplicity, ruleUploadNumbering)
+	register("C19", "", ruleMultiplicity, ruleUploadNumbering, ruleUploadBytes)
 	register("C12", "", ruleQueryHash)
+	register("C02", "", ruleQueryHash) // steps that share a hash are de-duplicated into one: a client-selected field of the second is never asked for (seed C02-ZD)
+	register("C01", "", ruleQueryHash)
+	register("C11", "", ruleErrStructure) // a failed chunk reaches the caller through ExtendErrorList/FormatError (seed C11-ZB)
 	register("C01", "", ruleOperationType, ruleForwardedVariables)
-	register("C07", "", ruleChannels)
+	register("C07", "", ruleChannels, ruleNilIntoDerefField)
 	register("C08", "", ruleChannels)
 	register("C09", "", ruleBodyClosed, ruleAnswerDecoder, ruleErrStructure)
 	register("C13", "", ruleDownstreamErrorPath)
